@@ -948,7 +948,7 @@ func (e *CEnv) bcat(a, b *Term) *Term {
 	body := Eq(Select(c, i), Ite(And(Le(IntLit(0), i), Lt(i, la)), Select(e.bArr(a), i),
 		Ite(And(Le(la, i), Lt(i, Add(la, lb))), Select(e.bArr(b), Sub(i, la)), zeroOfSort(es))))
 	ax := Forall([]*Term{i}, body, mk("select", es, c, i))
-	wi := &winInfo{c: c, axiom: ax, kind: "cat|" + Add(la, lb).String()}
+	wi := &winInfo{c: c, axiom: ax, kind: "len|" + Add(la, lb).String()}
 	v.windows[key] = wi
 	e.st.pc = append(e.st.pc, ax)
 	v.extLemmas(e.st, wi)
@@ -1180,6 +1180,19 @@ func (e *CEnv) trCall(x *CExpr) CVal {
 			arr = Store(arr, IntLit(int64(i)), b)
 		}
 		return CVal{e.mkBStr(arr, IntLit(int64(n))), bstrType}
+	}
+	// struct constructor: T(f1, ..., fn)
+	if x.X.Kind == "ident" && len(x.Args) >= 2 {
+		if ty, ok := e.tryType(x.X.Name); ok && ty != nil {
+			if st, isS := ty.Underlying().(*types.Struct); isS && st.NumFields() == len(x.Args) {
+				si := v.structInfoOf(ty)
+				args := make([]*Term, len(x.Args))
+				for i, a := range x.Args {
+					args[i] = e.coerceTo(e.tr(a), st.Field(i).Type()).T
+				}
+				return CVal{mk(si.ctor, si.sort, args...), ty}
+			}
+		}
 	}
 	// conversion to a named or basic type
 	if x.X.Kind == "ident" && len(x.Args) == 1 {
